@@ -6,10 +6,10 @@ SPEC = {
         {"name": "enum", "pkg": RF, "kind": "plain", "run": "^TestVerifC11Enum$",
          "quick": {"shards": 8, "timeout": 300}, "thorough": {"shards": 16, "timeout": 1500}},
         {"name": "machine", "pkg": RF, "kind": "rapid", "run": "^TestVerifC11Machine$",
-         "quick": {"checks": 300, "shards": 2, "timeout": 300},
+         "quick": {"checks": 400, "shards": 4, "timeout": 300},
          "thorough": {"checks": 3000, "shards": 16, "timeout": 1500}},
         {"name": "concurrent", "pkg": RF, "kind": "rapid", "run": "^TestVerifC11Concurrent$",
-         "quick": {"checks": 300, "shards": 1, "timeout": 300, "race": True},
+         "quick": {"checks": 400, "shards": 2, "timeout": 300, "race": True},
          "thorough": {"checks": 4000, "shards": 8, "timeout": 1500, "race": True}},
     ],
 }
